@@ -191,6 +191,9 @@ func runC05HistoryOn(evs []c05Ev, getMID int32, dtls bool) (string, bool) {
 	fmt.Fprintf(&sb, "Hist %d [", own0)
 	okRun := true
 	for i, e := range evs {
+		if activeTracker != nil && activeTracker.bad() {
+			break // C12: the lifecycle trace already contains a violation; the rest would only wait for watchdogs
+		}
 		if i > 0 {
 			sb.WriteString("; ")
 		}
